@@ -592,6 +592,28 @@ def relax_until_satisfiable(cfg):
     return cfg
 
 
+
+@st.composite
+def cascade_vertices(draw, k):
+    """Vertices of a chain of `levels` diamonds U_0 => U_1 => ... => U_n (two parallel paths between consecutive
+    k-mers) whose last k-mer only leads into the A..A self-loop: at threshold 1 the reach-pruning has to run once per
+    level, because a level only stops being informative after the next one has lost its arcs.  Returns
+    (sorted vertex list, levels)."""
+    rng = random.Random(draw(st.integers(0, 2 ** 32 - 1)))
+    levels = draw(st.sampled_from([2, 3, 4, 5, 5, 6, 6, 7, 8, 9, 12]))
+    units = ["".join(rng.choice("CGT") for _ in range(k)) for _ in range(levels + 1)]
+    strings = []
+    for i in range(levels):
+        a, b = rng.sample("CGT", 2)
+        strings += [units[i] + a + units[i + 1], units[i] + b + units[i + 1]]
+    a, b = rng.sample("ACGT", 2)
+    strings += [units[-1] + a + "A" * k + "A", units[-1] + b + "A" * k + "A"]
+    vertices = set()
+    for text in strings:
+        for i in range(len(text) - k + 1):
+            vertices.add(o.index(text[i: i + k]))
+    return sorted(vertices), levels
+
 # ----------------------------------------------------------------------------------------------- large k, tiny graphs
 
 @st.composite
